@@ -60,15 +60,15 @@ abbrev Out := Except Fail
 def assertCursor (endp : Option Nat) (cond : Bool) : Out Unit :=
   if endp.isSome && !cond then .error .wrongCursor else .ok ()
 
-/-- `(begin) && ((offset + size) <= static_cast<std::size_t>(end - begin))`;
-    `end < begin` wraps to a huge unsigned value -/
+/-- `(begin) && ((begin) <= (end)) && ((offset + size) <= static_cast<std::size_t>(end - begin))`
+    (a view that begins past its end pointer fails the check) -/
 def sizeOk (endp : Option Nat) (begin : Option Nat) (off size : Nat) : Bool :=
   match endp with
   | none => true
   | some e =>
     match begin with
     | none => false
-    | some b => if b ≤ e then decide (off + size ≤ e - b) else true
+    | some b => decide (b ≤ e) && decide (off + size ≤ e - b)
 
 /-- `SBEPP_SIZE_CHECK(begin, end, offset, size)` -/
 def sizeCheck (endp : Option Nat) (begin : Option Nat) (off size : Nat) : Out Unit :=
@@ -474,6 +474,12 @@ def cursorSubrange2 (bo : ByteOrder) (buf : List Nat) (endp : Option Nat) (dim :
   if endp.isSome && !decide (pos < size) then .error .precondition
   else if endp.isSome && !decide (count ≤ size - pos) then .error .precondition
   else .ok ⟨rd bo buf (gaddr + dim.blOff) dim.blSize, pos, count⟩
+
+/-- the range object a group view hands out -/
+def mkRange (bo : ByteOrder) (buf : List Nat) (endp : Option Nat) (dim : Dim) (gaddr : Nat) : RangeKind → Out Range
+  | .all => cursorRange bo buf endp dim gaddr
+  | .sub pos => cursorSubrange1 bo buf endp dim gaddr pos
+  | .subn pos count => cursorSubrange2 bo buf endp dim gaddr pos count
 
 /-- `*it` of a cursor range: `Entry{*cursor, end, block_length}`.  A non-empty
     entry class inherits `entry_base(cursor&, end, block_length)`, which only
